@@ -123,7 +123,7 @@ def main(tier, seed):
                         out.append({"pm": "none", "pu": "none", "lb": lb, "lu": lu, "mb": mb, "mu": mu})
         return out
 
-    per_state = 400 if thorough else 40
+    per_state = 80 if thorough else 40
     calls = []     # (acc, s, g, fix)
     for acc in ACCESSORS:
         for si, s in enumerate(stored):
